@@ -155,7 +155,7 @@ PROPS = {
         "bounds": {
             "write": "VH_C16_write: ConsoleWriter.Write as a whole with encoding/json's Decoder as an environment stub (Decode yields the harness's event map; the native replay decodes real JSON text of the same map): three consecutive Writes through one writer, the first succeeding or failing in each way Write can fail (destination error, short write, FormatExtra error, undecodable input), the second and third on an event of <= 1 (thorough 2) extra fields: result n == len(p), nil error, exactly one write to Out holding this event's parts, fields, extra and one newline and nothing left over from the earlier call, identical bytes for the identical event; 'other' values are rendered as the compact JSON InterfaceMarshalFunc returns (a symbolic printable byte inside)",
             "claimed": "writeFields + orderFields on a symbolic decoded event of <= 2 (thorough 3) fields whose names are drawn from {symbolic letter, 'error', '', a part name, 'f'+symbolic letter, 'zz'} and values from {string, json.Number, other->InterfaceMarshalFunc}, FieldsExclude empty or one name, with and without already-written parts, against a reference rendering (error first, rest byte-lexical; with FieldsOrder: named fields first in that order, rest lexical); needsQuote on all strings of <= 3 (thorough 4) symbolic bytes against the byte-wise definition, and its wiring to string values; writePart over sequences of <= 3 parts from the four standard names + one extra, any single PartsExclude, present or absent values",
-            "not_claimed": "that Write succeeds and returns the full length for every event, JSON decoding (encoding/json), timestamp/level/caller/message rendering, number digits, strconv.Quote's escaping (stub: quotes around the raw text), colours (fmt), determinism of the whole; map iteration order is fixed insertion order in the engine (the code sorts, so order-independence holds by construction of the reference comparison only for the explored order)",
+            "not_claimed": "JSON decoding itself (encoding/json: an environment stub in VH_C16_write), the DEFAULT timestamp/level/caller/message/field formatters (fmt, time, os.Getwd), number digits, strconv.Quote's escaping (stub: quotes around the raw text), colours (fmt); map iteration order is fixed insertion order in the engine (the code sorts, so order-independence holds by construction of the reference comparison only for the explored order)",
         },
         "assumptions": COMMON_ASSUME + ["formatters are harness stubs (name=, S/N/J+value)", "sort.Strings/sort.Search executed from real SSA; sort.Slice = insertion sort driven by the real less closure", "strconv.Quote and fmt.Fprint are stubs"],
     },
@@ -175,7 +175,7 @@ PROPS = {
         "groups": [{"name": "user", "tags": "verif", "run": "^VH_C19_", "flags": {"witnesses": 400}}],
         "level": "other",
         "witness_replays": {"quick": 400, "thorough": 400},
-        "explanation": "runtime.Caller is an engine intrinsic over gosym's own frame stack (go/ssa synthetic wrappers skipped like the runtime skips wrapper frames); the harness package is a 'user' package importing zerolog and zerolog/log. Every combination of caller mechanism (Event.Caller, Caller(k), CallerSkipFrame(k)+Caller, Context.Caller, CallerWithSkipFrameCount(2+k)), entry point (Trace..Error, Log, Err, WithLevel, Print/Printf/Println on a Logger and through package log, package-level log.Info/Error/Err, Logger.Write), finalizer (Msg, Msgf, MsgFunc, Send), presence of another hook (before/after) and wrapper depth k in 0..2 is executed; the file/line handed to CallerMarshalFunc must be the user's statement (marked with zzverif.Here() on the line before). Data are concrete: the solver has almost nothing to decide here; the value of the check is the coverage of the combination space on the real skip arithmetic, and EVERY explored path is also executed natively (go test -overlay) where the real runtime must report the same frame, which validates the intrinsic.",
+        "explanation": "runtime.Caller is an engine intrinsic over gosym's own frame stack (go/ssa synthetic wrappers skipped like the runtime skips wrapper frames); the harness package is a 'user' package importing zerolog and zerolog/log. Every combination of caller mechanism (Event.Caller, Caller(k), CallerSkipFrame(k)+Caller, CallerSkipFrame split over two calls, Context.Caller, CallerWithSkipFrameCount(2+k), the global CallerSkipFrameCount raised by k after the logger was built, for both Event.Caller and Context.Caller), entry point (Trace..Error, Log, Err, WithLevel, Print/Printf/Println on a Logger and through package log, package-level log.Info/Error/Err, Logger.Write), finalizer (Msg, Msgf, MsgFunc, Send), presence of another hook (before/after) and wrapper depth k in 0..2 is executed; the file/line handed to CallerMarshalFunc must be the user's statement (marked with zzverif.Here() on the line before). Data are concrete: the solver has almost nothing to decide here; the value of the check is the coverage of the combination space on the real skip arithmetic, and EVERY explored path is also executed natively (go test -overlay) where the real runtime must report the same frame, which validates the intrinsic.",
         "bounds": {"depth": "wrapper depth k <= 2; one statement per source line in the harness (multi-line call chains have compiler-specific line attribution: outside)"},
         "assumptions": COMMON_ASSUME + ["go/ssa positions of call instructions equal the line the runtime reports for the call (checked natively on every path)"],
     },
